@@ -298,5 +298,134 @@ theorem step_some (s : ShDir) (g : Fifo) (x : DirIn) (L : Nat) (hL : L < c.m) (h
         · exact Or.inl hK
       rw [this]
 
+theorem getD_map_range (m j : Nat) (hj : j < m) (f : Nat → Bool) :
+    ((List.range m).map f).getD j false = f j := by
+  simp [List.getD, hj]
+
+/-- One step with the counters at zero and no slave selected (the address on the bus maps nowhere). -/
+theorem step_none (s : ShDir) (g : Fifo) (x : DirIn) (hinv : Inv c s g) (hK : s.arb.cnt = 0)
+    (hsel : ∀ j, j < c.m → selOf c rd s x j = false) :
+    RouteOK c true g x (out c rd s x) ∧ Inv c (next c rd s x) (fifoNext c rd g x (out c rd s x)) := by
+  have hG := hinv.grant_lt
+  have hsm : busSM c rd s x = {} := busSM_none c rd s x hsel
+  have hM : ∀ i, (out c rd s x).toM i = Arb.toM s.arb {} i := by
+    intro i; show Arb.toM s.arb (busSM c rd s x) i = _; rw [hsm]
+  have hS : ∀ j, j < c.m → (out c rd s x).toS j =
+      { bus s x with aValid := (bus s x).aValid && false, dValid := (bus s x).dValid && false,
+                     rReady := (bus s x).rReady && false } := by
+    intro j hj
+    show Dec.toS (c.decCfg rd) s.dec (bus s x) j = _
+    unfold Dec.toS
+    have : Dec.sel (c.decCfg rd) s.dec (bus s x) j = false := hsel j hj
+    rw [this]
+  have e_mReq : ∀ i, mReq x (out c rd s x) i = false := by
+    intro i; simp [mReq, hM, Arb.toM]
+  have e_mRsp : ∀ i, mRsp x (out c rd s x) i = false := by
+    intro i; simp [mRsp, hM, Arb.toM]
+  have e_sReq : ∀ j, j < c.m → sReq x (out c rd s x) j = false := by
+    intro j hj; simp [sReq, hS j hj]
+  have e_sRsp : ∀ j, j < c.m → sRsp x (out c rd s x) j = false := by
+    intro j hj; simp [sRsp, hS j hj]
+  have hidle := hinv.idle hK
+  refine ⟨⟨?_, ?_, ?_, ?_, ?_⟩, ?_⟩
+  · intro i _ h; rw [e_mReq] at h; cases h
+  · intro j hj h; rw [e_sReq j hj] at h; cases h
+  · intro j hj h; rw [e_sRsp j hj] at h; cases h
+  · intro i _ h; rw [e_mRsp] at h; cases h
+  · intro j k hj _ _ a ha; rw [hidle j hj] at ha; cases ha
+  · have hacnt : (next c rd s x).arb.cnt = 0 := by
+      show ctrNext s.arb.cnt (Arb.request s.arb x.ms (busSM c rd s x)) (Arb.response (c.gated rd) s.arb x.ms (busSM c rd s x)) = _
+      rw [hsm, hK]
+      simp [Arb.request, Arb.response, ctrNext]
+    have hdcnt : (next c rd s x).dec.cnt = 0 := by
+      show ctrNext s.dec.cnt (Dec.request (c.decCfg rd) s.dec (bus s x) x.ss) (Dec.response (c.decCfg rd) s.dec (bus s x) x.ss) = _
+      have h1 : Dec.toM (c.decCfg rd) s.dec (bus s x) x.ss = {} := hsm
+      rw [hinv.cnt_eq, hK]
+      unfold Dec.request Dec.response
+      rw [h1]
+      simp [ctrNext]
+    have hf : ∀ j, j < c.m → fifoNext c rd g x (out c rd s x) j = [] := by
+      intro j hj
+      unfold fifoNext sDone
+      rw [e_sRsp j hj, e_sReq j hj, hidle j hj]
+      simp
+    refine ⟨?_, ?_, ?_, ?_, ?_⟩
+    · show RoundRobin.next .ce c.n s.arb.grant _ _ < c.n
+      exact RoundRobin.next_lt _ _ _ hG
+    · rw [hacnt, hdcnt]
+    · rw [hacnt]; omega
+    · intro _ j hj; exact hf j hj
+    · intro h; exact absurd hacnt h
+
+/-- **One step of the shared interconnect**: if the registers agree with the scoreboard and the environment
+    behaves in this cycle, the routing guarantee holds in this cycle and the agreement is preserved. -/
+theorem step (hd : Disjoint c) (s : ShDir) (g : Fifo) (x : DirIn) (hinv : Inv c s g) (env : EnvOK c g x) :
+    RouteOK c true g x (out c rd s x) ∧ Inv c (next c rd s x) (fifoNext c rd g x (out c rd s x)) := by
+  by_cases hK : s.arb.cnt = 0
+  · -- idle: combinational bypass of the select
+    have hdK : s.dec.cnt = 0 := by rw [hinv.cnt_eq, hK]
+    have hselDec : ∀ j, selOf c rd s x j = c.dec j ((bus s x).aAddr >>> c.shift) := by
+      intro j
+      unfold selOf Dec.sel Dec.selDec ctrEmpty
+      rw [hdK]; rfl
+    have hselR' : ∀ j, j < c.m →
+        (next c rd s x).dec.selR.getD j false = c.dec j ((bus s x).aAddr >>> c.shift) := by
+      intro j hj
+      show (if ctrEmpty s.dec.cnt then (List.range (c.decCfg rd).m).map (Dec.selDec (c.decCfg rd) (bus s x))
+            else s.dec.selR).getD j false = _
+      unfold ctrEmpty
+      rw [hdK]
+      simp only [beq_self_eq_true, if_true]
+      exact getD_map_range c.m j hj _
+    by_cases h : ∃ L, L < c.m ∧ c.dec L ((bus s x).aAddr >>> c.shift) = true
+    · obtain ⟨L, hL, hdec⟩ := h
+      have hsel : ∀ j, j < c.m → selOf c rd s x j = (j == L) := by
+        intro j hj
+        rw [hselDec]
+        by_cases hjl : j = L
+        · subst hjl; simp [hdec]
+        · have : (j == L) = false := by simpa using hjl
+          rw [this]
+          cases hv : c.dec j ((bus s x).aAddr >>> c.shift)
+          · rfl
+          · exact absurd (hd _ j L hj hL hv hdec) hjl
+      apply step_some c rd s g x L hL hinv hsel
+      · rw [hinv.idle hK L hL, hK]; rfl
+      · intro j hj _; exact hinv.idle hK j hj
+      · intro _; exact hdec
+      · intro j hj; rw [hselR' j hj, ← hselDec, hsel j hj]
+      · exact env
+    · apply step_none c rd s g x hinv hK
+      intro j hj
+      rw [hselDec]
+      cases hv : c.dec j ((bus s x).aAddr >>> c.shift)
+      · rfl
+      · exact absurd ⟨j, hj, hv⟩ h
+  · -- locked: the registered select
+    obtain ⟨L, hL, hselR, hgL, hoth⟩ := hinv.locked hK
+    have hdK : s.dec.cnt ≠ 0 := by rw [hinv.cnt_eq]; exact hK
+    have hsel : ∀ j, j < c.m → selOf c rd s x j = (j == L) := by
+      intro j hj
+      unfold selOf Dec.sel ctrEmpty
+      have : (s.dec.cnt == 0) = false := by simpa using hdK
+      rw [this]
+      simpa using hselR j hj
+    apply step_some c rd s g x L hL hinv hsel hgL hoth
+    · intro hv
+      apply env.sameSlave s.arb.grant L hinv.grant_lt hL hv
+      rw [hgL]
+      exact List.mem_replicate.mpr ⟨hK, rfl⟩
+    · intro j hj
+      show (if ctrEmpty s.dec.cnt then _ else s.dec.selR).getD j false = _
+      unfold ctrEmpty
+      have : (s.dec.cnt == 0) = false := by simpa using hdK
+      rw [this]
+      simpa using hselR j hj
+    · exact env
+
+theorem inv_reset : Inv c (init c rd) Fifo.empty := by
+  refine ⟨?_, rfl, ?_, ?_, ?_⟩
+  all_goals sorry
+
 end Shared
 end Litex.Axi.Lite
